@@ -195,6 +195,47 @@ class Gen:
             out.append("")
         return "\n".join(out)
 
+    def activation_family(self):
+        """Activation identity and reference counting: an activated flow f5 with 0-2 defaulted parameters; two or
+        three activators pass positional / named / omitted values, equal to or different from the defaults, some
+        activate twice; they end on their own events or on the event f5 itself reacts to (once or twice), in any
+        order; f5 restarts on Ek between and together with the ends of its activators."""
+        r = self.rng
+        k = r.randrange(NEV)
+        others = [e for e in range(NEV) if e != k]
+        self.with_param = set()
+        sig, choices = r.choice([
+            ("", [""]),
+            (" $x", [' "a"', ' "b"', ' $x="a"']),
+            (' $x $y="d"', [' "a"', ' "a" "d"', ' "a" "e"', ' "a" $y="d"', ' "a" $y="e"', ' $x="a"', ' "b"', ' $x="a" $y="e"']),
+            (' $x $y="d"', [' "a"', ' "a" "e"', ' "a" $y="e"', ' "a" "d"']),
+            (' $x="c" $y="d"', ['', ' "c"', ' "c" "d"', ' "a"', ' $y="e"', ' $y="d"', ' "c" "e"', ' $x="c"']),
+        ])
+        nact = r.choice([2, 2, 3])
+        starts = [f"  start f{i}" for i in range(1, nact + 1)]
+        r.shuffle(starts)
+        out = ["flow main"] + starts + ["  match Never()", ""]
+        ends = []
+        for i in range(1, nact + 1):
+            out += [f"flow f{i}", f"  activate f5{r.choice(choices)}"]
+            if r.random() < 0.2:
+                out.append(f"  activate f5{r.choice(choices)}")
+            e = k if r.random() < 0.35 else r.choice(others)
+            ends.append(e)
+            out.append(f"  match E{e}()")
+            if r.random() < 0.4:
+                out.append(f"  match E{e}()")
+            out.append("")
+        out += [f"flow f5{sig}", f"  match E{k}()"]
+        if r.random() < 0.4:
+            out.append(f"  start {self.action()}")
+        out.append("")
+        hist = [["ev", k]] * r.choice([0, 1, 1, 2])
+        tail = [["ev", e] for e in ends] + [["ev", e] for e in ends if r.random() < 0.5] + [["ev", k]] * r.choice([1, 2])
+        r.shuffle(tail)
+        hist = hist + tail + [["ev", k], ["ev", r.choice(others)], ["ev", k]]
+        return "\n".join(out), [list(h) for h in hist]
+
     def queued_family(self):
         """Starts / activations that are still QUEUED when their sender is ended by a sibling within the same
         external event.  g (f2) starts q (f3) and p2 (f4) and ends when q ends (Finished / Failed) or is stopped
@@ -356,6 +397,13 @@ SEEDS = [
     # its scope ends: no Stop for a finished action
     ("flow main\n  start f1\n  match Never()\n\nflow f1\n  start UtteranceBotAction(script=\"a\")\n  when TimerBotAction(timer_name=\"t\", duration=1.0)\n    match E1()\n  or when E0()\n    match E1()\n  match E2()\n",
      [["finished", 0], ["started_after_finished", 0], ["finished", 1], ["started_after_finished", 1], ["ev", 0], ["ev", 1], ["ev", 2]]),
+    # activation identity: a defaulted parameter given explicitly (non-default) by one activator, omitted by the other
+    ("flow main\n  start f1\n  start f2\n  match Never()\n\nflow f1\n  activate f5 \"a\" \"e\"\n  match E1()\n\nflow f2\n  activate f5 \"a\"\n  match E2()\n\nflow f5 $x $y=\"d\"\n  match E0()\n",
+     [["ev", 0], ["ev", 1], ["ev", 0], ["ev", 2], ["ev", 0]]),
+    # restarted once, first activator (parent of the reference instance) ended, then ONE event ends the current
+    # instance and the last activator
+    ("flow main\n  start f1\n  start f2\n  match Never()\n\nflow f1\n  activate f5\n  match E1()\n\nflow f2\n  activate f5\n  match E0()\n  match E0()\n\nflow f5\n  match E0()\n",
+     [["ev", 0], ["ev", 1], ["ev", 0], ["ev", 0], ["ev", 0]]),
     # ... or is stopped by its parent
     ("flow main\n  start f1 as $r1\n  match E1()\n  send $r1.Stop()\n  match Never()\n\nflow f1\n  start UtteranceBotAction(script=\"a\") as $a1\n  start f2\n  match E0()\n  send $a1.Stop()\n  match Never()\n\nflow f2\n  await GestureBotAction(gesture=\"g\")\n",
      [["ev", 0], ["ev", 1], ["finished", 0]]),
@@ -410,6 +458,24 @@ def _params_match(sm, state, inst, event):
     return True
 
 
+def _bound_values(state, fid, args):
+    """Independent re-statement of how a flow call binds its parameters (create_flow_instance): positional
+    `$i`, else by name, else the declared default, else None."""
+    from nemoguardrails.colang.v2_x.runtime.eval import eval_expression
+
+    out = []
+    for idx, prm in enumerate(state.flow_configs[fid].parameters):
+        if f"${idx}" in args:
+            out.append(args[f"${idx}"])
+        elif prm.name in args:
+            out.append(args[prm.name])
+        elif prm.default_value_expr is not None:
+            out.append(eval_expression(prm.default_value_expr, {}))
+        else:
+            out.append(None)
+    return out
+
+
 class Clock:
     """Controllable clock substituted for `datetime` in statemachine.py / flows.py (only .now() is used
     there): real time plus an offset that the history advances (`age` items)."""
@@ -433,6 +499,7 @@ class Recorder:
         self.explicit_stops = set()  # Stop events sent by a `send $action.Stop()` statement
         self.explicit_deactivated = set()  # flow ids named by an explicit deactivate statement
         self.hyp = []                      # violated hypotheses of the activation theorems
+        self.activations = []              # [activator uid, flow id, bound parameter values] of `activate` statements
         self.main_finished = False
         self.stack = []       # uids of the flows whose _abort_flow/_finish_flow is executing
         self.cases = []
@@ -583,6 +650,10 @@ class Recorder:
                 r0 = rec.begin(state, ["startproc", fid, new_uid, event.arguments.get("source_flow_instance_uid"), a, matching])
                 # hypotheses of C06_activation_count / C06_activation on real StartFlow events
                 src = state.flow_states.get(event.arguments.get("source_flow_instance_uid"))
+                if a and src is not None and src.flow_id != fid and src.status.name in ("STARTED", "STARTING"):
+                    # an `activate` statement of a running flow: identity of the activation = flow id + the tuple
+                    # of BOUND parameter values (positional, else named, else the declared default)
+                    rec.activations.append([src.uid, fid, _bound_values(state, fid, event.arguments)])
                 if src is not None and src.flow_id != fid and a not in (0, 1):
                     rec.hyp.append("ev_wf: start by another flow with marker %r" % a)
                 if new_uid in state.flow_states:
@@ -872,6 +943,20 @@ class Oracle:
                 V.append(("running-instance-lost-its-parent-link", step,
                           f"instance of `{f.flow_id}` is {f.status.name} (activated={f.activated}) but its parent instance {f.parent_uid.split(')')[0]}) was discarded by the state clean-up",
                           {"instance": uid, "parent": f.parent_uid}))
+        # (3'') activation identity = flow + bound parameter values (defaults included): while the activator that
+        #       executed `activate X <args>` runs, an instance of X with exactly those values is running
+        if not self.rec.main_finished:
+            for act_uid, fid, bound in self.rec.activations:
+                p = fs.get(act_uid)
+                if p is None or not _running(p) or fid in self.rec.explicit_deactivated:
+                    continue
+                names = [prm.name for prm in state.flow_configs[fid].parameters]
+                ok = any(_listening(g) and g.flow_id == fid and [g.arguments.get(n) for n in names] == bound for g in fs.values())
+                if not ok:
+                    V.append(("activation-has-no-running-instance", step,
+                              f"`{p.flow_id}` is running and activated `{fid}` with parameter values {bound}, but no instance of `{fid}` with these values is running",
+                              {"activator": act_uid, "flow": fid, "bound": [repr(b) for b in bound]}))
+                    break
         # (3') a running restarted instance (child of an instance of the same flow) needs a reference
         #      instance that is still activated by a running flow
         for uid, f in fs.items():
@@ -920,6 +1005,7 @@ def run_one(sm, fl, U, src, history, policy):
     rec.explicit_stops = set()
     rec.explicit_deactivated = set()
     rec.hyp = []
+    rec.activations = []
     rec.main_finished = False
     rec._es_open = False
     res = {"cases": [], "guards": [], "viol": [], "steps": 0, "error": None, "stats": {}}
@@ -1315,8 +1401,11 @@ def run(tier, seed, replay=None):
                 jobs.append({"job": len(jobs), "src": src, "history": hist, "policy": pol, "origin": "seed"})
     g = Gen(rng)
     for _ in range(nprog):
-        if rng.random() < 0.12:
+        q = rng.random()
+        if q < 0.12:
             src, hist = g.queued_family()
+        elif q < 0.27:
+            src, hist = g.activation_family()
         else:
             src = g.program()
             hist = g.history(maxlen)
